@@ -53,8 +53,8 @@ theorem C07_grid (a b dt : Num) (hdt : 0 < dt.q) (hab : a.q ≤ b.q) :
   have hN := floor_nonneg a.q b.q dt.q hdt hab
   have hne : dt.q ≠ 0 := ne_of_gt hdt
   refine ⟨(((b.q - a.q) / dt.q).floor + 1).toNat, ?_, ?_, grid_length _ _ _, ?_, ?_, grid_pairwise _ _ _ hdt, ?_⟩
-  · simp only [gridCount, gridSteps, hne, if_false]
-    rw [if_neg (by omega)]
+  · have hlt : ¬ (((b.q - a.q) / dt.q).floor + 1 < 0) := by omega
+    simp [gridCount, gridSteps, hne, hlt]
   · rw [Int.toNat_of_nonneg (by omega)]
   · intro h; rw [grid_getElem]; simp
   · intro i h; rw [grid_getElem, grid_getElem]; push_cast; ring
@@ -97,6 +97,28 @@ theorem C07_grid_partial (a b dt : Num) (h : gridSteps .asis a b dt = gridSteps 
 example : gridSteps .asis (Num.ofRat 2000) (Num.ofRat 2020) (Num.ofRat (1/5)) =
           gridSteps .spec (Num.ofRat 2000) (Num.ofRat 2020) (Num.ofRat (1/5)) := by decide +kernel
 
+/-- **Start after stop, `spec`.**  When the start lies after the stop by less than one step there is no grid point
+    not after `stop`: the specified timeline is empty. -/
+theorem C07_grid_empty (a b dt : Num) (hdt : 0 < dt.q) (h1 : b.q < a.q) (h2 : a.q - dt.q ≤ b.q) :
+    gridCount .spec a b dt = .ok 0 := by
+  have hne : dt.q ≠ 0 := ne_of_gt hdt
+  have hfl : ((b.q - a.q) / dt.q).floor = -1 := by
+    have hlo : ((-1 : Int) : Rat) ≤ (b.q - a.q) / dt.q := by
+      rw [le_div_iff₀ hdt]; push_cast; linarith
+    have hhi : (b.q - a.q) / dt.q < ((0 : Int) : Rat) := by
+      rw [div_lt_iff₀ hdt]; push_cast; linarith
+    have := Rat.le_floor_iff.2 hlo
+    have := Rat.floor_lt_iff.2 hhi
+    omega
+  simp [gridCount, gridSteps, hne, hfl]
+
+/-- **Start after stop, `asis`: counterexample.**  The code truncates the negative quotient toward zero:
+    start = 2005, stop = 2004.5, dt = 1 gives one point (at 2005, after stop) where the specification has none. -/
+theorem C07_start_after_stop_counterexample :
+    gridCount .asis (Num.ofRat 2005) (Num.ofRat (4009/2)) (Num.ofRat 1) = .ok 1 ∧
+    gridCount .spec (Num.ofRat 2005) (Num.ofRat (4009/2)) (Num.ofRat 1) = .ok 0 := by
+  decide +kernel
+
 /-! ### elapsed time and rounding -/
 
 /-- **tvec.**  `tvec` has one entry per point and `tvec[i] = round_tvec(i·dt)`; when dt is a whole number of
@@ -125,16 +147,16 @@ theorem C07_round (x : Rat) :
     have := C07_eps_decimals
     field_simp
     linarith
+  have key : (F64.rhe (x * pow10) : Rat) / pow10 - x = ((F64.rhe (x * pow10) : Rat) - x * pow10) / pow10 := by
+    field_simp
   unfold round6
-  rw [he, abs_le] at *
+  rw [key, he, abs_le] at *
   obtain ⟨h1, h2⟩ := h
+  have e : (1 : Rat) / pow10 / 2 = (1 / 2) / pow10 := by ring
+  rw [e]
   constructor
-  · rw [le_sub_iff_add_le, div_add' _ _ _ (ne_of_gt hp), le_div_iff₀ hp]
-    field_simp
-    linarith
-  · rw [sub_le_iff_le_add, div_le_iff₀ hp]
-    field_simp
-    linarith
+  · rw [← neg_div]; exact div_le_div_of_nonneg_right h1 hp.le
+  · exact div_le_div_of_nonneg_right h2 hp.le
 
 /-! ### the calendar -/
 
@@ -194,7 +216,7 @@ example : (dateRange (stepDate .week 1) ⟨2024, 3, 31⟩ (rangeFuel ⟨2024, 2,
 /-- **Integer dt on month timelines.**  Every date after the first is `k` months after its predecessor: the month
     index advances by exactly `k` and the day is the previous day clipped to the length of the new month
     (cumulatively, as `sc.daterange` does); the first date is the start; no date lies after `stop`. -/
-theorem C07_dates_integer_dt_month (k : Nat) (a b : Date) (ha : a.valid = true) :
+theorem C07_dates_integer_dt_month (k : Nat) (a b : Date) :
     let l := dateRange (stepDate .month k) b (rangeFuel a b) a
     (∀ h : 0 < l.length, l[0] = a) ∧
     (∀ i (h : i + 1 < l.length), l[i + 1] = addMonths (l[i]'(by omega)) k) ∧
@@ -308,7 +330,7 @@ theorem C07_abstvec_year (m sim : Timeline)
     (hu : decide (m.unit = .unitless) = false) (hsu : sim.unit = .year)
     (hn : (m.start.isNum && sim.start.isNum) = false) :
     makeAbstvec m sim = .ok (m.yearvec.map (fun y => round6 (y - sim.yearvec.headD 0))) := by
-  simp [makeAbstvec, hu, hsu, hn, bind, Except.bind, pure, Except.pure]
+  simp [makeAbstvec, hu, hsu, hn, pure, Except.pure]
 
 /-- **abstvec, day/week/month sim** (module or sim not numeric): module point `i` lies at
     `(days from the sim's first date to the module's date i) / days-per-sim-unit`. -/
@@ -319,7 +341,7 @@ theorem C07_abstvec_days (m sim : Timeline) (w : Rat)
         (if sim.unit = .day then 1 else 1 / w)))) := by
   have h1 : unitDays? .day = some 1 := C07_units_positive.2.1
   by_cases hd : sim.unit = .day
-  · simp [makeAbstvec, hu, hsu, hsl, hn, hd, unitRatio, bind, Except.bind, pure, Except.pure]
+  · simp [makeAbstvec, hu, hn, hd, unitRatio, bind, Except.bind, pure, Except.pure]
   · have hd' : ¬ (TUnit.day = sim.unit) := fun h => hd h.symm
     simp [makeAbstvec, hu, hsu, hsl, hn, hd, hd', unitRatio, hw, h1, bind, Except.bind, pure, Except.pure]
 
@@ -367,44 +389,15 @@ theorem C07_results_len (v : Variant) (s : Spec) (t : Timeline) (h : initTime v 
             simp [ih rest hrest]
   refine ⟨rfl, ?_⟩
   unfold initTime at h
-  simp only [bind, Except.bind, pure, Except.pure] at h
-  split at h
-  · -- numeric
-    split at h
-    · cases h
-    · rename_i n hn
-      split at h
-      · cases h
-      · split at h
-        · cases h
-        · rename_i ds hds
-          cases h
-          have := mapM_len _ _ hds
-          simp [tvecOf, grid] at this ⊢
-          exact this
-  · cases h
-  · -- date start
-    split at h
-    · cases h
-    · rename_i b hb
-      split at h
-      · cases h
-      · split at h
-        · split at h
-          · cases h
-          · rename_i n hn
-            split at h
-            · cases h
-            · rename_i ds hds
-              cases h
-              have := mapM_len _ _ hds
-              simp [tvecOf, grid] at this ⊢
-              exact this
-        · split at h
-          · cases h
-          · rename_i ds hds
-            cases h
-            simp [tvecOf]
+  simp only [bind, Except.bind, pure, Except.pure, throw, throwThe, MonadExceptOf.throw] at h
+  repeat' split at h
+  all_goals first
+    | (cases h; done)
+    | (cases h
+       have hm := mapM_len _ _ (by assumption)
+       simp [tvecOf, grid] at hm ⊢
+       exact hm)
+    | (cases h; simp [tvecOf])
 
 /-! ### rejections -/
 
@@ -439,12 +432,15 @@ theorem C07_reject_mix_unitless (m sim : Timeline)
     (h : decide (m.unit = .unitless) ≠ decide (sim.unit = .unitless)) : makeAbstvec m sim = .error .value := by
   simp [makeAbstvec, h, bind, Except.bind, throw, throwThe, MonadExceptOf.throw]
 
+/-- the error of a result, if any -/
+def err? {α} (r : Except Err α) : Option Err := match r with | .error e => some e | .ok _ => none
+
 /-- non-vacuity of the rejections, and an accepted neighbour of each -/
 example :
-    validateTime ⟨"year", some (.num (Num.ofRat 2000)), some (.num (Num.ofRat 2010)), some (Num.ofRat 10), Num.ofRat 1⟩ = .error .value ∧
-    validateTime ⟨"fortnight", none, none, none, Num.ofRat 1⟩ = .error .key ∧
-    validateTime ⟨"year", some (.num (Num.ofRat 2000)), some (.num (Num.ofRat 2000)), none, Num.ofRat 1⟩ = .error .value ∧
-    calendarDates .asis .day ⟨2020, 1, 1⟩ ⟨2020, 2, 1⟩ (Num.ofRat (2/5)) = .error .value ∧
+    err? (validateTime ⟨"year", some (.num (Num.ofRat 2000)), some (.num (Num.ofRat 2010)), some (Num.ofRat 10), Num.ofRat 1⟩) = some .value ∧
+    err? (validateTime ⟨"fortnight", none, none, none, Num.ofRat 1⟩) = some .key ∧
+    err? (validateTime ⟨"year", some (.num (Num.ofRat 2000)), some (.num (Num.ofRat 2000)), none, Num.ofRat 1⟩) = some .value ∧
+    err? (calendarDates .asis .day ⟨2020, 1, 1⟩ ⟨2020, 2, 1⟩ (Num.ofRat (2/5))) = some .value ∧
     (validateTime ⟨"year", some (.num (Num.ofRat 2000)), some (.num (Num.ofRat 2010)), none, Num.ofRat 1⟩).toOption.isSome = true ∧
     (validateTime ⟨"", none, none, none, Num.ofRat 1⟩).toOption.map (fun s => (s.unit, s.start, s.stop))
       = some (.year, .num (Num.ofNat 2000), .num ⟨2050, 2050⟩) := by
